@@ -2,9 +2,11 @@
    successes (hystrix closer).  Level 1: every history of probe outcomes, clock
    advances and timer-callback firings, every SleepWindow / HalfOpenAttempts /
    RequiredConcurrentSuccessful.  At level 1 stamps reach the gate in clock
-   order, so the budget clause holds in full; with concurrent callers whose
-   stamps arrive out of order it is FALSE for HalfOpenAttempts >= 2 (D3, known
-   finding): c03_budget_out_of_order_refuted.  Statements only. *)
+   order, so the budget clause holds in full; with a caller stalled between
+   its clock reading and the gate it is FALSE (D3, known finding):
+   c03_budget_out_of_order_refuted (budget 2, stamps out of order) and
+   c03_budget_stalled_caller_refuted (budget 1, stall longer than SleepWindow);
+   family `probe` replays both on the real circuit.  Statements only. *)
 From CV Require Import Base.Prelude Seq.RollingCounter Seq.TimedCheck Seq.Logic Seq.Circuit Seq.CircuitSpec Seq.LogicSpec Seq.C03_Proofs.
 
 Section C03.
@@ -82,6 +84,15 @@ Theorem c03_budget_out_of_order_refuted :
      TOBool false None; TOBool true None; TOBool true (Some 10)].
 Proof. vm_compute. reflexivity. Qed.
 
+(* D3 needs no budget above 1: a caller that read the clock at 20 is stalled until the clock shows 31;
+   admitted on its stale stamp it re-arms the window to 30, so a caller reading 31 is admitted at once.
+   Pairs are (clock when the call reaches the gate, the call): two admissions at the same instant. *)
+Definition admitted_at (sleep budget : Z) (arrivals : list (Z * tcop)) : list Z :=
+  map fst (filter (fun p => succeeded (snd p)) (combine (map fst arrivals) (tc_run sleep budget (map snd arrivals)))).
+Theorem c03_budget_stalled_caller_refuted :
+  admitted_at 10 1 [(10, TSleepStart 10); (20, TFire 0); (31, TCheck 20); (31, TFire 1); (31, TCheck 31)] = [31; 31].
+Proof. vm_compute. reflexivity. Qed.
+
 Print Assumptions c03_sleep_window.
 Print Assumptions c03_budget_per_span.
 Print Assumptions c03_failed_probe_keeps_open.
@@ -92,3 +103,4 @@ Print Assumptions c03_forced_open_stays.
 Print Assumptions c03_close_circuit.
 Print Assumptions c03_then_admits_all.
 Print Assumptions c03_budget_out_of_order_refuted.
+Print Assumptions c03_budget_stalled_caller_refuted.
